@@ -41,6 +41,8 @@ pub struct Dir {
     pub reads: u64,
     /// bytes sitting in the pipe, high-water mark
     pub max_buffered: usize,
+    /// network delay: nothing is handed to the reader before this (virtual) instant
+    pub stall_until: Option<tokio::time::Instant>,
 }
 
 pub struct LinkSt {
@@ -64,6 +66,10 @@ impl Link {
     }
     pub fn set_cut_at(&self, dir: usize, at: Option<u64>) {
         self.st.lock().unwrap().dirs[dir].cut_at = at;
+    }
+    /// delay everything travelling in direction `dir` for `ms` of virtual time from now
+    pub fn stall(&self, dir: usize, ms: u64) {
+        self.st.lock().unwrap().dirs[dir].stall_until = Some(tokio::time::Instant::now() + std::time::Duration::from_millis(ms));
     }
     /// lose the connection now (both directions)
     pub fn cut(&self) {
@@ -100,7 +106,7 @@ pub struct End {
 
 impl ClusterBidiStream for End {
     fn split(self: Box<Self>) -> (BoxRead, BoxWrite) {
-        (Box::new(LinkReader { link: self.link.clone(), side: self.side }), Box::new(LinkWriter { link: self.link.clone(), side: self.side }))
+        (Box::new(LinkReader { link: self.link.clone(), side: self.side, sleep: None }), Box::new(LinkWriter { link: self.link.clone(), side: self.side }))
     }
     fn peer_label(&self) -> Option<String> {
         Some(format!("{}:{}", self.link.label, 1 - self.side))
@@ -113,14 +119,38 @@ impl ClusterBidiStream for End {
 pub struct LinkReader {
     link: Link,
     side: usize,
+    sleep: Option<Pin<Box<tokio::time::Sleep>>>,
 }
 
 impl tokio::io::AsyncRead for LinkReader {
     fn poll_read(self: Pin<&mut Self>, cx: &mut Context<'_>, buf: &mut tokio::io::ReadBuf<'_>) -> Poll<std::io::Result<()>> {
-        let r = 1 - self.side;
+        let this = self.get_mut();
+        let r = 1 - this.side;
+        // network delay
+        let until = {
+            let g = this.link.st.lock().unwrap();
+            if g.cut {
+                None
+            } else {
+                g.dirs[r].stall_until
+            }
+        };
+        if let Some(until) = until {
+            if tokio::time::Instant::now() < until {
+                let mut sl = this.sleep.take().filter(|s| s.deadline() == until).unwrap_or_else(|| Box::pin(tokio::time::sleep_until(until)));
+                if std::future::Future::poll(sl.as_mut(), cx).is_pending() {
+                    this.sleep = Some(sl);
+                    // a cut must still wake us
+                    this.link.st.lock().unwrap().dirs[r].reader_waker = Some(cx.waker().clone());
+                    return Poll::Pending;
+                }
+            }
+        }
+        let self_side = this.side;
+        let link = this.link.clone();
         let mut wake_other: Option<Waker> = None;
         let out = {
-            let mut g = self.link.st.lock().unwrap();
+            let mut g = link.st.lock().unwrap();
             let cut = g.cut;
             {
                 let d = &mut g.dirs[r];
@@ -131,7 +161,7 @@ impl tokio::io::AsyncRead for LinkReader {
                 Poll::Ready(Ok(()))
             } else if g.dirs[r].cut_at.is_some_and(|c| g.dirs[r].delivered >= c) {
                 g.cut = true;
-                wake_other = g.dirs[self.side].reader_waker.take();
+                wake_other = g.dirs[self_side].reader_waker.take();
                 Poll::Ready(Ok(()))
             } else {
                 let d = &mut g.dirs[r];
@@ -358,6 +388,8 @@ pub enum ProbeMsg {
     #[rpc]
     AskNever(u32, u32, RpcReplyPort<u64>),
     Release,
+    /// like `Release`, oldest held call first
+    ReleaseFifo,
 }
 
 #[derive(Clone, Debug, PartialEq, Eq)]
@@ -417,6 +449,12 @@ impl Actor for Probe {
             ProbeMsg::Release => {
                 rec("release", 0, 0, vec![], String::new());
                 while let Some((s, q, port)) = st.held.pop() {
+                    let _ = port.send(reply_val(self.idx, s, q));
+                }
+            }
+            ProbeMsg::ReleaseFifo => {
+                rec("release", 0, 0, vec![], String::new());
+                for (s, q, port) in st.held.drain(..) {
                     let _ = port.send(reply_val(self.idx, s, q));
                 }
             }
